@@ -784,8 +784,8 @@ def weave_fn(it, blk, counts, rewrite_log):
         body = rule_R7(body, blk.r7, counts)
     if blk.r14:
         body = rule_R14(body, blk.r14, counts)
-    if blk.r24:
-        body = rule_R24(body, counts)
+    # R24 (continue elimination) is applied to every extracted function: it only fires on `if c { continue; }`, which Verus rejects in `for`
+    body = rule_R24(body, counts)
     if blk.attrs.get("rename"):
         sig = re.sub(r"\bfn\s+%s\b" % re.escape(it["name"]), "fn " + blk.attrs["rename"], sig, count=1)
     # name the return value
